@@ -298,3 +298,82 @@ def _field_annotations(ip, a, kw, node):
 
 
 R.EXTERNALS["monkeytype.typing:field_annotations"] = R.ExtFn(_field_annotations)
+
+# ---- subscription of a constructor held in a variable (container_type[element]), module / name attributes
+subscript = declare_pred("subscript", L.V, L.V, L.V, tag="Ty")
+tmodule = declare_pred("tmodule", L.V, L.V, tag="str")
+cname = declare_pred("cname", L.V, L.V, tag="str")              # __name__ of a plain class
+BARE = {n: L.atom("typing", n) for n in ("Dict", "List", "Tuple", "Set")}
+BARE["Generator"] = L.atom("typing", "Generator")
+BARE["Union"] = UNION_BARE
+for _n in BARE:
+    R.SPEC["BARE_" + _n] = ZV(BARE[_n], "Ty")
+R.EXTERNALS["typing.Generator"] = ZV(BARE["Generator"], "Ty")
+ctor_of = declare_pred("ctor_of", L.V, L.V, tag="Ty")          # the bare constructor a rewrite_X method passes for kind X
+
+
+def _ax4():
+    ax = lambda n, e: L.axiom(T, n, e)
+    e1 = L.const("ty_e")
+    ax("sub-List", L.FA(sq, z3.Implies(L.len_(sq) == 1, subscript(BARE["List"], sq) == List_(L.nth(sq, 0))), [subscript(BARE["List"], sq)]))
+    ax("sub-Set", L.FA(sq, z3.Implies(L.len_(sq) == 1, subscript(BARE["Set"], sq) == Set_(L.nth(sq, 0))), [subscript(BARE["Set"], sq)]))
+    ax("sub-Dict", L.FA(sq, z3.Implies(L.len_(sq) == 2, subscript(BARE["Dict"], sq) == Dict_(L.nth(sq, 0), L.nth(sq, 1))), [subscript(BARE["Dict"], sq)]))
+    ax("sub-Generator", L.FA(sq, z3.Implies(L.len_(sq) == 3, subscript(BARE["Generator"], sq) == Generator_(L.nth(sq, 0), L.nth(sq, 1), L.nth(sq, 2))),
+                            [subscript(BARE["Generator"], sq)]))
+    ax("sub-Tuple", L.FA(sq, z3.Implies(z3.Not(z3.And(L.len_(sq) == 2, L.nth(sq, 1) == ELLIPSIS)), subscript(BARE["Tuple"], sq) == Tuple_(sq)),
+                        [subscript(BARE["Tuple"], sq)]))
+    ax("sub-TupleVar", L.FA(sq, z3.Implies(z3.And(L.len_(sq) == 2, L.nth(sq, 1) == ELLIPSIS), subscript(BARE["Tuple"], sq) == TupleVar_(L.nth(sq, 0))),
+                           [subscript(BARE["Tuple"], sq)]))
+    ax("sub-Union", L.FA(sq, z3.Implies(L.len_(sq) >= 1, subscript(UNION_BARE, sq) == Union_(sq)), [subscript(UNION_BARE, sq)]))
+    for k, b in (("List", "List"), ("Set", "Set"), ("Dict", "Dict"), ("Generator", "Generator"), ("Tuple", "Tuple"), ("TupleVar", "Tuple"), ("Union", "Union")):
+        ax("ctor-" + k, L.FA(t, z3.Implies(kind(t) == K[k], ctor_of(t) == BARE[b]), [ctor_of(t)]))
+    for k in GENERIC_KINDS:
+        ax("module-" + k, L.FA(t, z3.Implies(kind(t) == K[k], tmodule(t) == L.box_str(z3.StringVal("typing"))), [tmodule(t)]))
+    ax("module-any", tmodule(ANY) == L.box_str(z3.StringVal("typing")))
+    ax("module-str", L.FA(t, L.is_str(tmodule(t)), [tmodule(t)]))
+    ax("arity-List", L.FA(t, z3.Implies(z3.Or(kind(t) == K["List"], kind(t) == K["Set"], kind(t) == K["Iterator"], kind(t) == K["Type"]), L.len_(args(t)) == 1), [args(t)]))
+    ax("arity-Dict", L.FA(t, z3.Implies(z3.Or(kind(t) == K["Dict"], kind(t) == K["DefaultDict"], kind(t) == K["TupleVar"]), L.len_(args(t)) == 2), [args(t)]))
+    ax("arity-Generator", L.FA(t, z3.Implies(kind(t) == K["Generator"], L.len_(args(t)) == 3), [args(t)]))
+    ax("tuplevar-ellipsis", L.FA(t, z3.Implies(kind(t) == K["TupleVar"], L.nth(args(t), 1) == ELLIPSIS), [args(t)]))
+    ax("tuple-no-ellipsis", L.FA([t, i], z3.Implies(z3.And(kind(t) == K["Tuple"], 0 <= i, i < L.len_(args(t))), L.nth(args(t), i) != ELLIPSIS), [L.nth(args(t), i)]))
+    ax("inv-Tuple", L.FA(t, z3.Implies(kind(t) == K["Tuple"], t == Tuple_(args(t))), [kind(t)]))
+    ax("inv-Union", L.FA(t, z3.Implies(kind(t) == K["Union"], t == Union_(args(t))), [kind(t)]))
+    ax("ellipsis-kind", kind(ELLIPSIS) == K["Other"])
+    ax("args-not-none", L.FA([t, i], z3.Implies(z3.And(0 <= i, i < L.len_(args(t))), L.nth(args(t), i) != L.NONE), [L.nth(args(t), i)]))
+
+
+_ax4()
+R.ATTRS[("Ty", "__module__")] = lambda ip, r: ZV(tmodule(r.term), "str")
+has_args = lambda t_: z3.Or(*[kind(t_) == K[k] for k in GENERIC_KINDS if k != "Callable"])
+def _args_default(ip, r, default):
+    if not ip.st.qctx:
+        if ip.branch(has_args(r.term), 0):
+            return ZV(args(r.term), "Seq[Ty]")
+        return default
+    return ZV(z3.If(has_args(r.term), args(r.term), as_v(default)), "Opt[Seq[Ty]]")
+
+
+R.ATTRS[("Ty", "__args__?")] = _args_default
+R.ATTRS[("Ty", "__name__?")] = lambda ip, r, default: ZV(z3.If(is_class(r.term), cname(r.term), as_v(default)), "Opt[str]")
+R.ATTRS[("Ty", "__name__")] = lambda ip, r: (ip.partial(is_class(r.term), "AttributeError", None, "__name__"), ZV(cname(r.term), "str"))[1]
+L.axiom(T, "cname-str", L.FA(t, L.is_str(cname(t)), [cname(t)]))
+
+
+def _ty_getitem(ip, r, a, kw, node):
+    """container_type[elems] where container_type is a bare constructor held in a variable."""
+    x = a[0]
+    sv = ip.seq_of(x) if not (isinstance(x, ZV) and base_tag(x.tag) == "Ty") else ZV(L.mk_tuple([x.term]), "seq")
+    ctor = r.term
+    ok = z3.Or(z3.And(z3.Or(ctor == BARE["List"], ctor == BARE["Set"]), L.len_(sv.term) == 1),
+               z3.And(ctor == BARE["Dict"], L.len_(sv.term) == 2), z3.And(ctor == BARE["Generator"], L.len_(sv.term) == 3),
+               ctor == BARE["Tuple"], z3.And(ctor == UNION_BARE, L.len_(sv.term) >= 1))
+    ip.partial(ok, "TypeError", node, "subscript-arity")
+    return ZV(subscript(ctor, sv.term), "Ty")
+
+
+R.METHODS[("Ty", "__getitem__")] = _ty_getitem
+
+
+@spec("has_args_")
+def _has_args_spec(ip, a, kw):
+    return ZB(has_args(as_v(a[0])))
